@@ -61,6 +61,8 @@ type UnitRun struct {
 	callees  map[string]bool
 	retHook  func(*State, []Val)
 	usedLemmas map[string]bool
+	haveDone    map[int]bool   // have clauses evaluated on at least one return path
+	haveSkipped map[int]string // have clauses that could not be evaluated on some path (reported when never evaluated)
 	extra      map[string]string // named declarations / axioms this unit needs (emitted in needOrd order)
 }
 
